@@ -144,6 +144,13 @@ impl<W: 'static, R: 'static, T: 'static> XSet<W, R, T> {
     }
 }
 
+#[cfg(feature = "verif")]
+impl<W, R, T> XSet<W, R, T> {
+    pub(super) fn verif_len(&self) -> usize {
+        self.len
+    }
+}
+
 impl<W: 'static, R: 'static, T: 'static> XNativeValue for XSet<W, R, T> {
     fn dyn_size(&self) -> usize {
         (self.len + self.inner.len() + 2) * size_of::<Rc<ManagedXValue<W, R, T>>>()
